@@ -229,7 +229,15 @@ func genMsgKind(r *Rng, c *SrvConf, h *host, xid uint32, forced string) (MsgSpec
 		}
 		// identities somebody might derive from another host's hardware address: the server's internal
 		// namespace, RFC 2132 "type 1" (01 + address), the bare address, other hardware types
-		switch r.Intn(8) {
+		switch r.Intn(10) {
+		case 8, 9: // an identifier that is the four bytes of an address somebody holds (the server's, a reservation, an earlier offer)
+			tgt := c.SelfIP
+			if vip != nil && r.Bool() {
+				tgt = vip
+			} else if h.lastOff != nil && r.Bool() {
+				tgt = h.lastOff
+			}
+			m.Cid = append([]byte(nil), tgt.To4()...)
 		case 6: // the internal namespace wrapped into an RFC 4361 identifier (type ff, some IAID)
 			m.Cid = append(append([]byte{0xff}, r.Bytes(4)...), append([]byte{0, 3, 0, 0}, victim...)...)
 		case 7: // ... or behind other short headers
